@@ -273,7 +273,7 @@ func init() {
 	// ---- C13: expired entries swept within one tick ----
 	plans["C13"] = func(thorough bool) []*Job {
 		var jobs []*Job
-		kinds := []string{"timer-not-swept", "untruthful-expiration", "missing-entry"}
+		kinds := []string{"timer-not-swept", "untruthful-expiration", "missing-entry", "expiration-misreported"}
 		hour := int64(3600) * 1e9
 		ttls := []int64{1, tickNs - 1, tickNs, 65 * tickNs, hour + hour/5, 41 * hour, 7 * 24 * hour, math.MaxInt64 / 2}
 		advs := []int64{1, tickNs, 63 * tickNs, 64 * tickNs, 65 * tickNs, 64 * tickNs * 64, int64(1.22 * float64(hour)), 39 * hour, 156 * hour, 13 * 24 * hour, 300 * 365 * 24 * hour}
@@ -305,6 +305,15 @@ func init() {
 				}
 				jobs = append(jobs, seqJob(seqParams{Cfg: cfg, Alphabet: a, Kinds: kinds}, depth, 4, budget, "cleanups-with-expiry"))
 			}
+		}
+		// size-bounded and expiring: a full cache that still holds long expired entries when the next write arrives
+		for _, cfg := range []CacheCfg{{MaxSize: 2, Expiry: "writing", TTL: 1000, ClockStart: 1 << 40}, {MaxWeight: 3, Expiry: "accessing", TTL: 1000, ClockStart: 1 << 40}} {
+			a := []string{"set 1", "set 2", "set 3", "set 4", "get 1", "inv 2", "adv 100", fmt.Sprintf("adv %d", tickNs), fmt.Sprintf("adv %d", 2*tickNs+1000), "cleanup", "setmax 1", "setmax 3"}
+			depth := 5
+			if thorough {
+				depth = 6
+			}
+			jobs = append(jobs, seqJob(seqParams{Cfg: cfg, Alphabet: a, Kinds: kinds}, depth, 4, 80, "cleanups-with-expiry", "overflow-evictions"))
 		}
 		// a deadline-extending read whose read-buffer event is dropped (ring of 4 in the small-scope build, the 5th
 		// read is refused): the timer stays in its old bucket and must be re-filed when that bucket is swept
@@ -346,6 +355,18 @@ func init() {
 				depth, budget = 4, 600
 			}
 			jobs = append(jobs, seqJob(seqParams{Cfg: cfg, Alphabet: a, Kinds: kinds, Stats: true}, depth, 4, budget))
+		}
+		// refresh tasks that wait in a queued executor while the key is written, invalidated or read again
+		for _, cfg := range []CacheCfg{
+			{MaxSize: 3, Refresh: "writing", RefreshTTL: 40, Executor: "deferred", ClockStart: 1 << 40},
+			{Expiry: "writing", TTL: 100, Refresh: "creating", RefreshTTL: 40, Executor: "deferred", ClockStart: 1 << 40},
+		} {
+			a := []string{"set 1", "set 2", "refresh 1 val", "refresh 1 err", "load 1 val", "get 1", "inv 1", "adv 41", "runexec", "bulkrefresh 1,2 full"}
+			depth := 4
+			if thorough {
+				depth = 6
+			}
+			jobs = append(jobs, seqJob(seqParams{Cfg: cfg, Alphabet: a, Kinds: kinds, Stats: true}, depth, 4, 60))
 		}
 		return jobs
 	}
